@@ -29,7 +29,9 @@ func (c10StatelessEnv) Set(k, v string)             { c10Store.Set(k, v) }
 
 func checkC10(c *run.Ctx) {
 	n := c.N(100000, 30000000)
-	names := []string{"A", "B", "C", "D", "E", "PATH", "Path", "path", "a", "b", "HOME", "X_1", "Y", "SINIF", "s\u0131n\u0131f", "STRASSE", "stra\u00dfe", "\u212a", "K", "opt=level", "=", "a=b=c", "A=B"}
+	names := []string{"A", "B", "C", "D", "E", "PATH", "Path", "path", "a", "b", "HOME", "X_1", "Y", "SINIF", "s\u0131n\u0131f", "STRASSE", "stra\u00dfe", "\u212a", "K", "opt=level", "=", "a=b=c", "A=B",
+		// names whose only lower-case letters are not ASCII, next to their upper-case spellings
+		"\u00e9", "\u00c9", "\u00f11", "\u00e9COLE", "\u00c9COLE", "\u00e9cole", "\u03b1\u03b2\u03b3", "\u0391\u0392\u0393"}
 	body := func(i int, r *rand.Rand, stateless bool) {
 		nent := r.IntN(9)
 		if r.IntN(10) == 0 {
